@@ -196,6 +196,10 @@ def main(argv=None):
         print("no harness module for", pid)
         return 2
     sys.path.insert(0, ROOT)
+    alt = os.environ.get("VERIF_REPO")
+    if alt:  # seeded-change runs: engines B/C (in this process and in shard subprocesses) must see the same tree
+        sys.path.insert(0, alt)
+        os.environ["PYTHONPATH"] = ROOT + os.pathsep + alt
     os.environ.setdefault("VERIF_MODE", "concrete")
     import warnings
 
